@@ -13,11 +13,13 @@ MANIFEST = dict(
          "weights, per-sample density rows, Q = Σ w_k q_k, W = U/Q), generic over any field of characteristic zero: weights are "
          "the fractions of samples drawn from each proposal and sum to one; after every iteration (any number of them, any batch "
          "sizes, with/without the independent set) every stored sample's row holds every proposal's density at that sample, its "
-         "Q is the mixture under the CURRENT weights and W·Q = U; plus the counter-example that skipping the re-weighting of old "
+         "Q is the mixture under the CURRENT weights and W·Q = U; the counts are the numbers of stored samples labelled with each "
+         "proposal (samples_grouped_by_proposal); plus the counter-example that skipping the re-weighting of old "
          "samples breaks it. The model is tied to the code by replaying complete runs of the real ImportanceNestedSampler "
          "(real OrderedSamples / ImportanceFlowProposal / ImportanceFlowModel code paths, with exactly-known 'tilt' flows "
          "substituted for the neural flows and their training) through the Rat model after every iteration, finalisation and "
-         "checkpoint/resume, and by oracle checks on short runs with real neural flows.",
+         "checkpoint/resume (box priors and priors that are zero inside the box; strict/soft threshold, replace-all, "
+         "with/without the independent set, logit/none), and by oracle checks on short runs with real neural flows.",
     note="Densities q_k(x) are inputs of the model (the harness evaluates the exactly-known tilt densities as rationals at the stored "
          "float coordinates); neural-flow runs are checked by the oracle only (float32 tolerance). Ordering/alignment of rows is C04.",
     technique="Lean 4 proof (invariant by induction over iterations, any field) + trace replay of real runs through the Rat model",
